@@ -23,6 +23,9 @@ type mutation struct {
 	Expect string // substring of the obligation key that must be violated
 }
 
+// mutExtra: optional second edit in the same file (e.g. an added import), by mutation name.
+var mutExtra = map[string][2]string{}
+
 var selfTests = map[string][]mutation{}
 
 func addSelfTests(prop string, m ...mutation) { selfTests[prop] = append(selfTests[prop], m...) }
@@ -79,6 +82,9 @@ func runOneMutant(c *Ctx, pd *propDef, m mutation) (out struct {
 			return
 		}
 		mutated := strings.Replace(string(src), m.Old, m.New, 1)
+		if x, ok := mutExtra[m.Name]; ok {
+			mutated = strings.Replace(mutated, x[0], x[1], 1)
+		}
 		sub := newCtx(pd.ID, "quick", c.Repo, c.Verif)
 		loadFailed := ""
 		broken := ""
